@@ -125,7 +125,7 @@ class Deadline(Exception):
 
 class VT(object):
     __slots__ = ("name", "idx", "sem", "pending", "state", "os_thread", "fn", "exc", "result",
-                 "timekeeper", "background", "shim", "steps", "ident", "atomic", "timed_out", "in_line")
+                 "timekeeper", "background", "shim", "steps", "ident", "atomic", "timed_out", "in_line", "inject_exc")
 
     def __init__(self, name, idx, fn):
         self.name = name
@@ -145,6 +145,7 @@ class VT(object):
         self.atomic = 0           # >0: inside a section a harness declared atomic (no pre-emption)
         self.timed_out = False    # its pending timed acquire has been given its timeout
         self.in_line = False      # inside the line-mode callback
+        self.inject_exc = None    # an exception to be raised in this thread while it is blocked in its next acquire (a signal handler that raises)
 
     def __repr__(self):
         return "VT(%s)" % self.name
@@ -270,6 +271,8 @@ class Sched(object):
             return vt.background or self.start_gate is None or bool(self.start_gate())
         if k == "acq":
             return not op[1].held
+        if k == "acqi":
+            return True             # may be "interrupted" while the lock is held
         if k == "acqt":
             return (not op[1].held) or vt.timed_out
         if k == "sleep" or k == "until":
@@ -462,7 +465,18 @@ class SchedLock(object):
                 return False
             vt.timed_out = False
         else:
-            s.yield_point(("acq", self))
+            vt = s.me()
+            if vt is not None and vt.inject_exc is not None:
+                # a thread whose wait for the mutex can be interrupted: scheduled while the lock is still held, it gets the
+                # exception (as the main thread gets one from a signal handler while blocked in acquire()); otherwise it acquires
+                s.yield_point(("acqi", self))
+                if self.held:
+                    exc, vt.inject_exc = vt.inject_exc, None
+                    s.emit("acq_interrupted", s.name_of(self))
+                    raise exc
+                vt.inject_exc = None
+            else:
+                s.yield_point(("acq", self))
         assert not self.held, "scheduler released a thread into a held lock"
         self.held = True
         self.owner = s.me()
